@@ -21,7 +21,9 @@ RULE = ("case = model spec (see C01; solvers, implicit components, matrix-free a
 ASSUMPTIONS = [
     "inputs and outputs (all systems, root vectors) are compared bitwise before/after each query; residuals are not judged "
     "(the property names inputs and outputs)",
-    "the twin executes set_val/run_model only, in fresh objects inside the same process; equality of outputs is bitwise",
+    "the twin executes set_val/run_model only, in fresh objects inside the same process; equality of outputs is bitwise "
+    "for run-once models and to solver tolerance (1e-9) for models with iterating solvers, whose linear solves are "
+    "warm-started from linear vectors that queries legitimately use as work space",
     "an AnalysisError (non-convergence) discards the case",
 ]
 MIN_CLASS_FRACTION = {'judged': 0.5}
@@ -78,6 +80,8 @@ def check(case):
         res.fail('determinism:two-fresh-problems-differ-after-run_model', 'outputs differ bitwise')
     kinds_between = set()
     max_kinds = 0
+    iterating = any(g.get('nl') not in (None, 'runonce') for g in spec['groups'].values()) or \
+        any(c.get('self_solve') == 'solvers' for c in spec['comps'])
     for i, op in enumerate(case['ops']):
         name = op['op']
         try:
@@ -89,7 +93,10 @@ def check(case):
                 _apply_state_op(t, op, ref)
                 if name == 'run_model':
                     a, b = p.model._outputs.asarray(), t.model._outputs.asarray()
-                    if not np.array_equal(a, b):
+                    # iterative solvers warm-start their linear solves from the linear vectors, which queries
+                    # legitimately use as work space: agreement to solver tolerance there, bitwise otherwise
+                    same = np.allclose(a, b, rtol=1e-9, atol=1e-12) if iterating else np.array_equal(a, b)
+                    if not same:
                         j = int(np.argmax(a != b))
                         res.fail('leak:run_model-after-queries-differs-from-twin',
                                  f"op {i}: outputs differ bitwise from the twin that ran no queries: {a[j]!r} vs {b[j]!r}")
